@@ -22,7 +22,7 @@ AXES = ['r0', 'rmid', 'rlast', 'nterm', 'cterm', 'labile', 'static', 'isotope', 
 
 def values_at(axis, level, n):
     if axis == 'r0':
-        return [[['1', 1]], [['Oxidation', 2], ['1.5', 1]]]
+        return [[['1', 1]], [['Oxidation', 2], ['1.5', 1]], [['Formula:[13C2][15N]H6', 1], ['Xlink:DTSSP[88]', 2]]]
     if axis == 'rmid':
         return [[['2', 1]]]
     if axis == 'rlast':
